@@ -700,6 +700,8 @@ func c02Store(c *core.Ctx) {
 		c.Violate(rule, "aggsender.(*AggSender).sendCertificate#save", fn.Pos(), "the sent certificate is not stored")
 		return
 	}
+	// placeholders that travel with an error of an expanded helper (`return types.Certificate{}, err`) never reach the save
+	bindLivePhis(sx, fn, save)
 	ci := sx.Of(save.Call.Args[2])
 	hdr := ci.Fields["Header"]
 	cert := "(aggsender/types.AggsenderFlow).BuildCertificate(a.flow, ctx, (aggsender/types.AggsenderFlow).GetCertificateBuildParams(a.flow, ctx)#0)#0"
